@@ -20,13 +20,15 @@ const modPath = "github.com/bbva/qed"
 
 // Program is the resolved model of /repo every rule works on.
 type Program struct {
-	Fset     *token.FileSet
-	Pkgs     map[string]*packages.Package // by import path (all, incl. deps)
-	ModPkgs  []*packages.Package          // packages of the analysed module, sorted
-	SSA      *ssa.Program
-	SSAPkg   map[string]*ssa.Package
-	AllFuncs map[*ssa.Function]bool
-	ModFuncs []*ssa.Function // functions (incl. anonymous) whose package is in the module
+	Fset      *token.FileSet
+	Pkgs      map[string]*packages.Package // by import path (all, incl. deps)
+	ModPkgs   []*packages.Package          // packages of the analysed module, sorted
+	SSA       *ssa.Program
+	SSAPkg    map[string]*ssa.Package
+	AllFuncs  map[*ssa.Function]bool
+	boundRecv map[*ssa.Function]ssa.Value // see boundOnlyReceiver
+	extSites  map[*ssa.Function]int
+	ModFuncs  []*ssa.Function // functions (incl. anonymous) whose package is in the module
 
 	cg         *callgraph.Graph
 	AllowedErr []string // allow-listed type errors actually seen
@@ -234,10 +236,10 @@ func (p *Program) Func(pkg, name string) *ssa.Function {
 		return nil
 	}
 	if f := sp.Func(name); f != nil {
-		return f
+		return pureForwardTarget(f)
 	}
 	// renamed since the baseline (roles.go)
-	return roles.funcByName[relPkg(modPkg(pkg))+"\x00\x00"+name]
+	return pureForwardTarget(roles.funcByName[relPkg(modPkg(pkg))+"\x00\x00"+name])
 }
 
 func modPkg(rel string) string {
@@ -255,6 +257,67 @@ func modPkg(rel string) string {
 
 // Method resolves method `name` of named type `typ` (value or pointer receiver).
 func (p *Program) Method(pkg, typ, name string) *ssa.Function {
+	return pureForwardTarget(p.method0(pkg, typ, name))
+}
+
+// pureForwardTarget: when f does nothing but hand its parameters, in order, to one unexported
+// function of its package and return that function's results (the body was moved into a "doX"),
+// the subject of a rule about f is that function. Anything else in f (a lock, a test, a log call,
+// a reordered or computed argument) keeps f as the subject.
+func pureForwardTarget(f *ssa.Function) *ssa.Function {
+	for d := 0; d < 2 && f != nil; d++ {
+		if len(f.Blocks) != 1 || f.Recover != nil {
+			return f
+		}
+		var call *ssa.Call
+		ok := true
+		var ret *ssa.Return
+		for _, in := range f.Blocks[0].Instrs {
+			switch x := in.(type) {
+			case *ssa.Call:
+				if call != nil {
+					ok = false
+				}
+				call = x
+			case *ssa.Extract:
+			case *ssa.Return:
+				ret = x
+			case *ssa.DebugRef:
+			default:
+				ok = false
+			}
+		}
+		if !ok || call == nil || ret == nil {
+			return f
+		}
+		g := call.Call.StaticCallee()
+		if g == nil || g.Pkg != f.Pkg || g.Synthetic != "" || len(g.Blocks) == 0 || g.Object() == nil || g.Object().Exported() || len(call.Call.Args) != len(f.Params) {
+			return f
+		}
+		for i, a := range call.Call.Args {
+			if a != ssa.Value(f.Params[i]) {
+				return f
+			}
+		}
+		// results handed back unchanged
+		if len(ret.Results) == 1 {
+			if ret.Results[0] != ssa.Value(call) {
+				return f
+			}
+		} else {
+			for i, rv := range ret.Results {
+				ex, isEx := rv.(*ssa.Extract)
+				if !isEx || ex.Tuple != ssa.Value(call) || ex.Index != i {
+					return f
+				}
+			}
+		}
+		f = g
+	}
+	return f
+}
+
+func (p *Program) method0(pkg, typ, name string) *ssa.Function {
 	if f := p.methodExact(pkg, typ, name); f != nil {
 		return f
 	}
@@ -369,10 +432,49 @@ func (p *Program) NamedType(pkg, name string) *types.Named {
 func Anons(f *ssa.Function) []*ssa.Function {
 	var out []*ssa.Function
 	var rec func(g *ssa.Function)
+	seen := map[*ssa.Function]bool{f: true}
 	rec = func(g *ssa.Function) {
 		for _, a := range g.AnonFuncs {
+			if seen[a] {
+				continue
+			}
+			seen[a] = true
 			out = append(out, a)
 			rec(a)
+		}
+		// a closure rewritten as "small struct + method, used as a method value" still belongs to g
+		if theProg != nil {
+			eachInstr(g, func(in ssa.Instruction) {
+				mc, ok := in.(*ssa.MakeClosure)
+				if !ok {
+					return
+				}
+				m := boundTarget(mc.Fn.(*ssa.Function))
+				if m == nil || seen[m] || len(m.Params) == 0 || theProg.boundOnlyReceiver(m.Params[0]) == nil {
+					return
+				}
+				seen[m] = true
+				out = append(out, m)
+				rec(m)
+			})
+			// a recursive closure rewritten as an unexported recursive function (or method of a small
+			// carrier struct) called from g only still belongs to g
+			eachInstr(g, func(in ssa.Instruction) {
+				cc := callCommon(in)
+				if cc == nil {
+					return
+				}
+				m := cc.StaticCallee()
+				if m == nil || seen[m] || m == g || m.Pkg == nil || m.Pkg != g.Pkg || m.Object() == nil || m.Object().Exported() || m.Synthetic != "" || len(selfCalls(m)) == 0 {
+					return
+				}
+				if theProg.externalCallSites(m) != 1 {
+					return
+				}
+				seen[m] = true
+				out = append(out, m)
+				rec(m)
+			})
 		}
 	}
 	rec(f)
@@ -483,4 +585,22 @@ func (p *Program) Production(fn *ssa.Function) bool {
 		}
 	}
 	return p.reach[fn] && !p.isTestScaffold(fn)
+}
+
+// externalCallSites: the number of static call sites of m outside m itself (and its closures) in the module.
+func (p *Program) externalCallSites(m *ssa.Function) int {
+	if p.extSites == nil {
+		p.extSites = map[*ssa.Function]int{}
+		for _, f := range p.ModFuncs {
+			f := f
+			eachInstr(f, func(in ssa.Instruction) {
+				if cc := callCommon(in); cc != nil {
+					if g := cc.StaticCallee(); g != nil && g != f && outermost(f) != g {
+						p.extSites[g]++
+					}
+				}
+			})
+		}
+	}
+	return p.extSites[m]
 }
